@@ -366,6 +366,14 @@ fn write_json_string(f: &mut std::fmt::Formatter<'_>, s: &str) -> std::fmt::Resu
     f.write_char('"')
 }
 
+#[cfg(feature = "verif_hooks")]
+impl<'a> TranslationsFormatter<'a> {
+    /// Verification hook: build a formatter over arbitrary strings.
+    pub fn verif_new(strings: &'a [Rc<str>]) -> Self {
+        TranslationsFormatter { strings }
+    }
+}
+
 impl Display for TranslationsFormatter<'_> {
     fn fmt(&self, f: &mut std::fmt::Formatter<'_>) -> std::fmt::Result {
         f.write_char('[')?;
